@@ -222,10 +222,10 @@ def check_lattice(ck):
     from pyqmc.wftools import generate_jastrow
     from pyqmc.configurations.coord import PeriodicConfigs
     shear = np.array([[1, 1, 0], [0, 1, 0], [0, 0, 1]])
-    plan = [(wfzoo.h_pbc_k3, np.eye(3)), (wfzoo.h_pbc, np.ones((3, 3)) - 2 * np.eye(3)), (wfzoo.h_pbc, np.diag([2, 1, 1])), (wfzoo.h_pbc_tri, np.array([[1, 1, 0], [-1, 1, 0], [0, 0, 1]])),
+    plan = [(wfzoo.h_pbc_k3, np.eye(3)), (wfzoo.h_pbc_kdiag, np.eye(3)), (wfzoo.h_pbc, np.ones((3, 3)) - 2 * np.eye(3)), (wfzoo.h_pbc, np.diag([2, 1, 1])), (wfzoo.h_pbc_tri, np.array([[1, 1, 0], [-1, 1, 0], [0, 0, 1]])),
             (wfzoo.h_pbc_tri, np.array([[2, 1, 0], [0, 1, 0], [0, 0, 1]])), (wfzoo.h_pbc, np.eye(3)), (wfzoo.h_pbc, np.array([[1, 1, 0], [0, 1, 0], [0, 0, 2]])), (wfzoo.h_pbc_tri, np.eye(3))]
     worst = 0.0
-    for fx, S in (plan if ck.thorough else plan[:5]):
+    for fx, S in (plan if ck.thorough else plan[:6]):
         cell, mf = fx()
         sup = pyq.get_supercell(cell, S=S)
         tw = twists.create_supercell_twists(sup, mf)
